@@ -6,7 +6,7 @@ from .. import families, corpus
 def run(tier):
     corpus.EXTRA_SUBS = families.c03_subs()
     return famcheck.run(
-        "C03", tier, [("c03", families.c03(tier))],
+        "C03", tier, [("c03", families.c03(tier)), ("mixed", families.mixed(tier, 2000 if tier == "thorough" else 120, salt=3))],
         "all 8x8 (source,target) integer type pairs in the contexts explicit cast, initialiser, assignment to a declared local, "
         "sub-routine argument and sub-routine return (test sub-routines registered through the public Compiler.add_sub_routine), "
         "each source type into 32/64-bit/predicate/read-write registers, bit-field macro arguments and memory stores of every "
